@@ -149,11 +149,20 @@ func (e *Eval) scanCall(name string, c *ssa.CallCommon, args []Val) (Val, bool) 
 			alts = append(alts, ChoiceAlt{a.Cond, Val{Kind: KTuple, Tuple: []Val{a.Val.Tuple[2], e.Const(int64(a.Val.Lo), 64, true)}}})
 		}
 		return choice(alts), true
+	} else if name == "unicode.SimpleFold" && len(args) == 1 && args[0].Kind == KBits {
+		return Val{Kind: KBits, Bits: e.simpleFold(e.extend(args[0], 32)), Signed: true}, true
 	} else if !strings.HasPrefix(name, "strconv.") {
 		return Val{}, false
 	}
 	intv := func(i int) Val { return e.Const(int64(i), 64, true) }
 	switch pkgFn {
+	case "EqualFold":
+		a, okA := e.strBytes(args[0])
+		b, okB := e.strBytes(args[1])
+		if !okA || !okB {
+			return Val{}, false
+		}
+		return BoolVal(e.equalFold(a, b)), true
 	case "IndexFunc", "ContainsFunc":
 		// the first rune (decoded as the library does) on which the predicate
 		// holds: conditions are accumulated per start position
@@ -236,6 +245,42 @@ func (e *Eval) scanCall(name string, c *ssa.CallCommon, args []Val) (Val, bool) 
 		for _, a := range e.firstWhere(len(s), func(i int) int { return e.eq(s[i], cb) }, pkgFn == "LastIndexByte") {
 			alts = append(alts, ChoiceAlt{a.cond, intv(a.i)})
 		}
+		return choice(alts), true
+	case "Split":
+		// one alternative per set of separator occurrences (leftmost,
+		// non-overlapping, as the library cuts): the pieces are windows
+		s, ok1 := e.strBytes(args[0])
+		pat, ok2 := e.strBytes(args[1])
+		if !ok1 || !ok2 || len(pat) == 0 || len(s) > 14 {
+			return Val{}, false
+		}
+		base := e.outerCond
+		if base == 0 {
+			base = 1
+		}
+		var alts []ChoiceAlt
+		var rec func(from int, cond int, pieces []Val)
+		rec = func(from int, cond int, pieces []Val) {
+			if m.And(cond, base) == 0 {
+				return
+			}
+			none := cond
+			for q := from; q+len(pat) <= len(s); q++ {
+				hit := e.matchAt(s, pat, q)
+				if c := m.And(none, hit); c != 0 {
+					rec(q+len(pat), c, append(append([]Val(nil), pieces...), window(args[0], from, q)))
+				}
+				none = m.And(none, m.Not(hit))
+				if none == 0 {
+					return
+				}
+			}
+			if m.And(none, base) != 0 {
+				all := append(append([]Val(nil), pieces...), window(args[0], from, len(s)))
+				alts = append(alts, ChoiceAlt{none, Val{Kind: KSlice, cell: &cell{items: all}, Lo: 0, Hi: len(all)}})
+			}
+		}
+		rec(0, 1, nil)
 		return choice(alts), true
 	case "Index", "LastIndex", "Contains", "Cut":
 		s, ok1 := e.strBytes(args[0])
@@ -337,6 +382,20 @@ func (e *Eval) scanCall(name string, c *ssa.CallCommon, args []Val) (Val, bool) 
 			if nh := m.Not(has); nh != 0 {
 				alts = append(alts, ChoiceAlt{nh, args[0]})
 			}
+		}
+		return choice(alts), true
+	case "TrimSpace":
+		s, ok := e.strBytes(args[0])
+		if !ok {
+			return Val{}, false
+		}
+		cuts, okV := e.TrimSpaceCuts(s, e.outerCond)
+		if !okV {
+			return Val{}, false
+		}
+		var alts []ChoiceAlt
+		for _, c := range cuts {
+			alts = append(alts, ChoiceAlt{c.Cond, window(args[0], c.Lo, c.Hi)})
 		}
 		return choice(alts), true
 	case "TrimLeft", "TrimRight", "Trim":
@@ -607,3 +666,81 @@ func (e *Eval) IsPlainASCII(v Val) bool {
 // Ult8 is bits < c (unsigned, 8 bits); Ult8c is c < bits.
 func (e *Eval) Ult8(bits []int, c byte) int  { return e.ult(bits, e.Const(int64(c), 8, false).Bits) }
 func (e *Eval) Ult8c(c byte, bits []int) int { return e.ult(e.Const(int64(c), 8, false).Bits, bits) }
+
+// Cut is one outcome of a trimming call: the window [Lo,Hi) under Cond.
+type Cut struct{ Cond, Lo, Hi int }
+
+// TrimSpaceCuts is strings.TrimSpace on a window of symbolic bytes that is
+// valid UTF-8 under the condition given (0: any) (ok == false otherwise: the library's
+// treatment of broken encodings at the right end is not modelled): leading and
+// trailing runes with unicode.IsSpace are dropped.
+func (e *Eval) TrimSpaceCuts(s [][]int, under int) (cuts []Cut, ok bool) {
+	m := e.M
+	here := under
+	if here == 0 {
+		here = 1
+	}
+	if e.Assume != 0 {
+		here = m.And(here, e.Assume)
+	}
+	n := len(s)
+	_, valid := e.RuneStarts(s)
+	if m.And(here, m.Not(valid)) != 0 {
+		return nil, false
+	}
+	is := func(i int, v byte) int { return e.eq(s[i], e.Const(int64(v), 8, false).Bits) }
+	rng := func(i int, lo, hi byte) int {
+		return m.And(m.Not(e.ult(s[i], e.Const(int64(lo), 8, false).Bits)), m.Not(e.ult(e.Const(int64(hi), 8, false).Bits, s[i])))
+	}
+	// space(i, w): the w bytes at i spell a white-space rune
+	space := func(i, w int) int {
+		if i < 0 || i+w > n {
+			return 0
+		}
+		switch w {
+		case 1:
+			return m.Or(rng(i, 0x09, 0x0D), is(i, ' '))
+		case 2:
+			return m.And(is(i, 0xC2), m.Or(is(i+1, 0x85), is(i+1, 0xA0)))
+		case 3:
+			r := m.And(is(i, 0xE1), m.And(is(i+1, 0x9A), is(i+2, 0x80)))                                                       // U+1680
+			e2 := m.And(is(i+1, 0x80), m.Or(rng(i+2, 0x80, 0x8A), m.Or(rng(i+2, 0xA8, 0xA9), is(i+2, 0xAF))))                  // U+2000..200A, 2028, 2029, 202F
+			e2 = m.Or(e2, m.And(is(i+1, 0x81), is(i+2, 0x9F)))                                                                // U+205F
+			r = m.Or(r, m.And(is(i, 0xE2), e2))
+			return m.Or(r, m.And(is(i, 0xE3), m.And(is(i+1, 0x80), is(i+2, 0x80)))) // U+3000
+		}
+		return 0
+	}
+	anySpaceAt := func(i int) int { return m.Or(space(i, 1), m.Or(space(i, 2), space(i, 3))) }
+	anySpaceEndingAt := func(q int) int { return m.Or(space(q-1, 1), m.Or(space(q-2, 2), space(q-3, 3))) }
+	pre := make([]int, n+1) // s[:p] is white space only
+	pre[0] = 1
+	for p := 0; p < n; p++ {
+		for w := 1; w <= 3 && p+w <= n; w++ {
+			pre[p+w] = m.Or(pre[p+w], m.And(pre[p], space(p, w)))
+		}
+	}
+	suf := make([]int, n+1) // s[q:] is white space only
+	suf[n] = 1
+	for q := n - 1; q >= 0; q-- {
+		for w := 1; w <= 3 && q+w <= n; w++ {
+			suf[q] = m.Or(suf[q], m.And(space(q, w), suf[q+w]))
+		}
+	}
+	if c := m.And(here, pre[n]); c != 0 {
+		cuts = append(cuts, Cut{pre[n], 0, 0})
+	}
+	for p := 0; p < n; p++ {
+		left := m.And(pre[p], m.Not(anySpaceAt(p)))
+		if m.And(here, left) == 0 {
+			continue
+		}
+		for q := n; q > p; q-- {
+			c := m.And(left, m.And(suf[q], m.Not(anySpaceEndingAt(q))))
+			if m.And(here, c) != 0 {
+				cuts = append(cuts, Cut{c, p, q})
+			}
+		}
+	}
+	return cuts, true
+}
